@@ -388,6 +388,56 @@ func TestC16(t *testing.T) {
 	proposer := helpers.GenAccAddress()
 	s.MintToken(proposer, sdk.NewCoin(fxtypes.DefaultDenom, sdkmath.NewInt(1e18).MulRaw(1e9)))
 
+	// ---- payload classes accepted by governance: vary one field of a valid payload at a time (lists empty / one or two
+	// well-formed entries from a pool of well-formed strings of every kind the handlers parse, scalars replaced, booleans
+	// flipped, numbers at small values) and keep every variant that is valid and takes effect under the governance authority
+	pool := []string{
+		"0x0000000000000000000000000000000000001001", "0x0000000000000000000000000000000000001002", "0x0000000000000000000000000000000000001003",
+		"0x0000000000000000000000000000000000001004", "0x0000000000000000000000000000000000001005", callee.String(), token.String(),
+		"0x0000000000000000000000000000000000001004/a9059cbb", callee.String() + "/00000000",
+		helpers.GenAccAddress().String(), helpers.GenAccAddress().String(),
+		sdk.MsgTypeURL(&banktypes.MsgSend{}), sdk.MsgTypeURL(&distrtypes.MsgCommunityPoolSpend{}), sdk.MsgTypeURL(&erc20types.MsgConvertCoin{}),
+		sdk.MsgTypeURL(&crosschaintypes.MsgSendToExternal{}), fxtypes.DefaultDenom, "usdt", "alias" + helpers.NewRandDenom(), "eth", "bsc", "tron",
+		"0.5", "0.25", "1", "01", "a9059cbb", "Some Name", "SYM",
+	}
+	if pair, found := app.Erc20Keeper.GetTokenPair(s.Ctx, fxtypes.DefaultDenom); found {
+		pool = append(pool, pair.Erc20Address)
+	}
+	effective := map[string][]sdk.Msg{}
+	seenPayload := map[string]bool{}
+	baseDump = hx.DumpAll(s.Ctx, keys)
+	tried := 0
+	for round := 0; round < 2; round++ {
+		for _, bm := range valid(rng) {
+			k := msgKey(bm)
+			for _, v := range append([]sdk.Msg{bm}, variants(rng, bm, pool, 70)...) {
+				setAuthority(v, gov)
+				if vb, ok := v.(sdk.HasValidateBasic); ok && vb.ValidateBasic() != nil {
+					continue
+				}
+				bz, err := proto.Marshal(v)
+				if err != nil || seenPayload[string(bz)] {
+					continue
+				}
+				seenPayload[string(bz)] = true
+				tried++
+				if gerr, gp, _ := route(v); gerr == nil && gp == "" {
+					effective[k] = append(effective[k], v)
+				}
+			}
+		}
+	}
+	var effKeys []string
+	effCount := map[string]int{}
+	for k := range fxRouted {
+		effKeys = append(effKeys, k)
+		effCount[k] = len(effective[k])
+		out.Count(fmt.Sprintf("effective-payloads-under-governance:%s:%d", k, len(effective[k])))
+	}
+	sort.Strings(effKeys)
+	out.Stats.Extra["distinct_payloads_effective_under_governance"] = effCount
+	out.Stats.Extra["payload_variants_tried"] = tried
+
 	n := hx.N(24, 400)
 	for it := 0; it < n; it++ {
 		out.Reset()
@@ -431,12 +481,28 @@ func TestC16(t *testing.T) {
 		if it%3 == 0 {
 			msgs = append(msgs, zeros()...)
 		}
+		// payloads found to be valid AND effective under governance (one field of a valid payload varied), rotated
+		for _, k := range effKeys {
+			ps := effective[k]
+			for j := 0; j < 2 && j < len(ps); j++ {
+				if c := cloneMsg(ps[(it*2+j)%len(ps)]); c != nil {
+					msgs = append(msgs, c)
+				}
+			}
+		}
 		for _, m := range msgs {
 			setAuthority(m, gov)
 			payloadOk := true
 			if v, ok := m.(sdk.HasValidateBasic); ok && v.ValidateBasic() != nil {
 				payloadOk = false
 			}
+			govOk := 0
+			if payloadOk {
+				if gerr, gp, _ := route(m); gerr == nil && gp == "" {
+					govOk = 1
+				}
+			}
+			lists := nonEmptyLists(m)
 			cs := candidates(rng, m)
 			if rng.Intn(2) == 0 || !payloadOk {
 				cs = append(cs, junk(rng)...)
@@ -457,7 +523,7 @@ func TestC16(t *testing.T) {
 				if payloadOk {
 					pk = 1
 				}
-				out.Emit(fmt.Sprintf("call %s %s %s %d %s", msgKey(m), hx.HexS(gov), dash(hx.HexS(c.val)), pk, chainOf(m)), obs)
+				out.Emit(fmt.Sprintf("call %s %s %s %d %s %d %s", msgKey(m), hx.HexS(gov), dash(hx.HexS(c.val)), pk, chainOf(m), govOk, lists), obs)
 				out.Count("corr:" + c.kind + ":" + obs)
 				out.Nontrivial(msgKey(m) + "|" + c.kind + "|" + obs)
 				if c.kind == "gov" && payloadOk {
@@ -531,6 +597,128 @@ func TestC16(t *testing.T) {
 		cur := casSeq(s, out, rng, gov, junk(rng))
 		propSeq(s, out, rng, gov, proposer, cur)
 	}
+}
+
+func cloneMsg(m sdk.Msg) sdk.Msg {
+	bz, err := proto.Marshal(m)
+	c, ok := reflect.New(reflect.TypeOf(m).Elem()).Interface().(sdk.Msg)
+	if err != nil || !ok || proto.Unmarshal(bz, c) != nil {
+		return nil
+	}
+	return c
+}
+
+// fieldPaths lists the settable fields of a message down to two levels of nested structs: dotted path -> accessor.
+func fieldPaths(v reflect.Value, prefix string, depth int, f func(path string, fv reflect.Value)) {
+	for i := 0; i < v.NumField(); i++ {
+		sf := v.Type().Field(i)
+		if sf.PkgPath != "" || (prefix == "" && sf.Name == "Authority") || strings.HasPrefix(sf.Name, "XXX_") {
+			continue
+		}
+		fv := v.Field(i)
+		f(prefix+sf.Name, fv)
+		if fv.Kind() == reflect.Struct && depth < 2 {
+			fieldPaths(fv, prefix+sf.Name+".", depth+1, f)
+		}
+	}
+}
+
+// nonEmptyLists: the dotted paths of the non-empty slice fields of a message, comma separated ("-" if none).
+func nonEmptyLists(m sdk.Msg) string {
+	var ps []string
+	fieldPaths(reflect.ValueOf(m).Elem(), "", 0, func(path string, fv reflect.Value) {
+		if fv.Kind() == reflect.Slice && fv.Type().Elem().Kind() != reflect.Uint8 && fv.Len() > 0 {
+			ps = append(ps, path)
+		}
+	})
+	sort.Strings(ps)
+	if len(ps) == 0 {
+		return "-"
+	}
+	return strings.Join(ps, ",")
+}
+
+// variants: copies of a valid payload with ONE field varied.
+func variants(rng *rand.Rand, m sdk.Msg, pool []string, max int) []sdk.Msg {
+	type edit struct {
+		path string
+		set  func(fv reflect.Value)
+		list bool
+	}
+	var edits []edit
+	fieldPaths(reflect.ValueOf(m).Elem(), "", 0, func(path string, fv reflect.Value) {
+		switch fv.Kind() {
+		case reflect.Slice:
+			if fv.Type().Elem().Kind() == reflect.String {
+				edits = append(edits, edit{path: path, set: func(x reflect.Value) { x.Set(reflect.Zero(x.Type())) }})
+				for _, p := range pool {
+					p := p
+					edits = append(edits, edit{path: path, set: func(x reflect.Value) { x.Set(reflect.ValueOf([]string{p})) }})
+				}
+				for k := 0; k < 4; k++ {
+					a, b := pool[rng.Intn(len(pool))], pool[rng.Intn(len(pool))]
+					edits = append(edits, edit{path: path, set: func(x reflect.Value) { x.Set(reflect.ValueOf([]string{a, b})) }})
+				}
+			} else if fv.Len() > 0 {
+				edits = append(edits, edit{path: path, set: func(x reflect.Value) { x.Set(reflect.AppendSlice(x, x)) }}) // entries twice
+			}
+		case reflect.String:
+			for _, p := range pool {
+				p := p
+				edits = append(edits, edit{path: path, set: func(x reflect.Value) { x.SetString(p) }})
+			}
+		case reflect.Bool:
+			edits = append(edits, edit{path: path, set: func(x reflect.Value) { x.SetBool(!x.Bool()) }})
+		case reflect.Uint64, reflect.Uint32, reflect.Uint8:
+			for _, n := range []uint64{0, 1, 2} {
+				n := n
+				edits = append(edits, edit{path: path, set: func(x reflect.Value) { x.SetUint(n) }})
+			}
+			edits = append(edits, edit{path: path, set: func(x reflect.Value) { x.SetUint(x.Uint() + 1) }})
+		case reflect.Int64, reflect.Int32:
+			for _, n := range []int64{0, 1} {
+				n := n
+				edits = append(edits, edit{path: path, set: func(x reflect.Value) { x.SetInt(n) }})
+			}
+			edits = append(edits, edit{path: path, set: func(x reflect.Value) { x.SetInt(x.Int() + 1) }})
+		}
+	})
+	rng.Shuffle(len(edits), func(i, j int) { edits[i], edits[j] = edits[j], edits[i] })
+	// the list edits first: they are the payload classes a handler-side entry validation distinguishes
+	for i := range edits {
+		fv := reflect.Value{}
+		fieldPaths(reflect.ValueOf(m).Elem(), "", 0, func(path string, x reflect.Value) {
+			if path == edits[i].path {
+				fv = x
+			}
+		})
+		edits[i].list = fv.IsValid() && fv.Kind() == reflect.Slice
+	}
+	sort.SliceStable(edits, func(i, j int) bool { return edits[i].list && !edits[j].list })
+	if len(edits) > max {
+		edits = edits[:max]
+	}
+	var out []sdk.Msg
+	for _, e := range edits {
+		c := cloneMsg(m)
+		if c == nil {
+			continue
+		}
+		var target reflect.Value
+		fieldPaths(reflect.ValueOf(c).Elem(), "", 0, func(path string, fv reflect.Value) {
+			if path == e.path {
+				target = fv
+			}
+		})
+		if target.IsValid() && target.CanSet() {
+			func() {
+				defer func() { _ = recover() }()
+				e.set(target)
+				out = append(out, c)
+			}()
+		}
+	}
+	return out
 }
 
 func isASCII(s string) bool {
